@@ -488,7 +488,6 @@ def fn_vector(case, ctx):
         g = real(d)
         crf = fcross(fsub(fB, fA), fsub(fC, fA))
         ref = fsqrt(fdot(crf, crf)) / 2
-        scale = float(max(fnorm(fsub(fB, fA), "linf"), fnorm(fsub(fC, fA), "linf"))) ** 2
         ctx.check(g is not None and abs(g - ref) <= 1e-12 * max(ref, 1e-300) + (0 if exact else 16 * EPS * (float(fnorm(fA, "linf") + fnorm(fB, "linf") + fnorm(fC, "linf")) ** 2)),
                   "triangle_area", f"triangle_area({A},{B},{C}) = {d!r}, |AB x AC|/2 = {ref!r}")
     ok, d = ctx.call("triangle_area_2D", geom.triangle_area_2D, Vec(mk(a)), Vec(mk(b)), Vec(mk(c)))
